@@ -135,6 +135,8 @@ type CollisionSpec struct {
 	ID            string   `json:"id"`
 	Class         string   `json:"class"`
 	A, B          *RegSpec `json:"-"`
+	Single        bool     `json:"single,omitempty"` // only A: one controller whose own method names may collide
+	PClass        string   `json:"pclass"`
 	What          string   `json:"what"`
 	ExpectSurvive bool     `json:"expect_survive"`
 }
@@ -748,8 +750,75 @@ func Generate(seed int64, index int, size int) *Program {
 		if a == nil || b == nil {
 			return
 		}
-		p.Collisions = append(p.Collisions, &CollisionSpec{ID: fmt.Sprintf("X%d", len(p.Collisions)), Class: class, A: a, B: b,
+		p.Collisions = append(p.Collisions, &CollisionSpec{ID: fmt.Sprintf("X%d", len(p.Collisions)), Class: class, A: a, B: b, PClass: a.PClass + "~" + b.PClass,
 			What: a.What + " in " + fmt.Sprintf("%q", a.Group) + "  +  " + b.What + " in " + fmt.Sprintf("%q", b.Group), ExpectSurvive: survive})
+	}
+	// ONE controller whose own methods map to the same name: a single RouteCall / RoutePush must be
+	// refused loudly (call and push flavours; pairs from the documented table under HTTP, pairs found
+	// with the mapper - planning only - under both mappers)
+	{
+		var pairs [][2]string
+		if g.mapper == "http" { // table rows with one target, both identifiers exported
+			pairs = append(pairs, [2]string{"AaBb", "Aa__Bb"}, [2]string{"ABcXYz", "ABC__XYZ"})
+		}
+		byOut := map[string][]string{}
+		var ids []string
+		for _, row := range Table {
+			ids = append(ids, row.Ident)
+		}
+		ids = append(ids, fixedPool...)
+		ids = append(ids, "XyZ", "Xy__Z", "Xy___Z", "Aa___Bb", "Aa____Bb", "GetUser", "Get__User", "Get___User")
+		for i := 0; i < 80; i++ {
+			ids = append(ids, synth(g.r, true))
+		}
+		seen := map[string]bool{}
+		for _, id := range ids {
+			if reserved[id] || seen[id] || !exported(id) || len(id) > 24 {
+				continue
+			}
+			seen[id] = true
+			o := g.m("", id)
+			byOut[o] = append(byOut[o], id)
+		}
+		var outs []string
+		for o, l := range byOut {
+			if len(l) >= 2 {
+				outs = append(outs, o)
+			}
+		}
+		sort.Strings(outs)
+		for k := 0; k < 4 && len(outs) > 0; k++ {
+			l := byOut[outs[g.r.Intn(len(outs))]]
+			i := g.r.Intn(len(l))
+			j := (i + 1 + g.r.Intn(len(l)-1)) % len(l)
+			pairs = append(pairs, [2]string{l[i], l[j]})
+		}
+		for k, pr := range pairs {
+			push := k%2 == 1
+			ms := []string{pr[0], pr[1]}
+			if g.r.Chance(1, 2) { // a bystander method
+				ms = append(ms, g.pickIdent(true))
+			}
+			var c *Controller
+			for try := 0; try < 20 && c == nil; try++ {
+				name := g.pickIdent(false)
+				if try > 10 {
+					name = fmt.Sprintf("Ctl%d", g.r.Intn(1000))
+				}
+				c = g.ctl([]string{"main", "alt", "ctl"}[g.r.Intn(3)], push, name, ms)
+			}
+			if c == nil || len(c.Methods) < 2 {
+				continue
+			}
+			class := "one-controller-predicted-same-name"
+			if g.mapper == "http" && k < 2 {
+				class = "one-controller-doc-rows-same-target"
+			}
+			a := g.regCtl(c, g.anyChain(g.r.Intn(3)), false)
+			p.Collisions = append(p.Collisions, &CollisionSpec{ID: fmt.Sprintf("X%d", len(p.Collisions)), Class: class, A: a, Single: true,
+				PClass: Classify(pr[0]) + "~" + Classify(pr[1]),
+				What:   a.What + " in " + fmt.Sprintf("%q", a.Group) + " (one registration; methods " + pr[0] + " and " + pr[1] + ")"})
+		}
 	}
 	pickF := func() *Handler { return rndFuncs[g.r.Intn(len(rndFuncs))] }
 	{
@@ -932,6 +1001,10 @@ func (g *gen) source(p *Program) map[string]string {
 	}
 	m.WriteString("\t\t},\n\t\tCollisions: []c10rt.Collision{\n")
 	for _, c := range p.Collisions {
+		if c.Single {
+			fmt.Fprintf(&m, "\t\t\t{ID: %q, Class: %q, Single: true,\n\t\t\t\tA: c10rt.Reg%s},\n", c.ID, c.Class, regLit(c.A))
+			continue
+		}
 		fmt.Fprintf(&m, "\t\t\t{ID: %q, Class: %q,\n\t\t\t\tA: c10rt.Reg%s,\n\t\t\t\tB: c10rt.Reg%s},\n", c.ID, c.Class, regLit(c.A), regLit(c.B))
 	}
 	m.WriteString("\t\t},\n\t\tDirect: [][2]string{\n")
